@@ -336,6 +336,8 @@ H("udp_prepare_msg_encoding", ["C19"], "quick", "unix::prepare_msg_encoding",
   ["prepare_msg", "gso::set_segment_size", "Transmit::effective_segment_size", "cmsg::Encoder", "cmsg::Iter", "cmsg::decode", "EcnCodepoint::from_bits"],
   "every destination (IPv4 / IPv4-mapped / IPv6, any port), every ECN codepoint or none, payload 1..=64 bytes, every segment size, explicit IPv4 / IPv6 source or none, sendmsg_einval on/off",
   crate="quinn_udp")
+H("udp_gso_probe_native", ["C19"], "replay-only", "unix::gso_probe_native",
+  [("x", "u8")], 4, [], ["UdpSocketState::new", "gso::max_gso_segments"], "native replay body of E2 query e2_gso_probe_leaves_socket_clean (real loopback socket, getsockopt)", crate="quinn_udp")
 H("udp_effective_segment_size", ["C19"], "quick", "effective_segment_size",
   [("len", "u16"), ("has_seg", "bool"), ("seg", "usize")], 4, ["plain send", "segmented"],
   ["Transmit::effective_segment_size"], "every payload length: u16, every segment size: usize", crate="quinn_udp")
